@@ -612,3 +612,71 @@ package eventbus
 //@ func (*EventBus).ClearUpcastsForType
 //@   props C16
 //@   requires bus != nil && bus.upcastRegistry != nil
+
+// ---------------------------------------------------------------- MemoryStore (C10)
+//@ guarded MemoryStore.events by MemoryStore.mu
+//@ guarded MemoryStore.subscriptions by MemoryStore.mu
+//@ guarded MemoryStore.nextOffset by MemoryStore.mu
+//@ level MemoryStore.mu 2
+// Stored events are never modified after they are created (callers are
+// assumed not to mutate the *StoredEvent values a store hands out).
+//@ immutable {C10,C11,C12,C17} StoredEvent.Offset StoredEvent.Type StoredEvent.Data StoredEvent.Timestamp
+//@ event lockMem := call lock:MemoryStore.mu
+//@ event unlockMem := call unlock:MemoryStore.mu
+
+//@ lockinv MemoryStore.mu(m) [MemInv.shape] {C10} m.subscriptions != nil && m.nextOffset == len(m.events) && wfslice(m.events)
+//@ lockinv MemoryStore.mu(m) [MemInv.offsets] {C10} forall i int :: {m.events[i]} 0 <= i && i < len(m.events) ==> m.events[i] != nil && allocated(m.events[i]) && m.events[i].Offset == pad20(i+1)
+
+//@ func NewMemoryStore
+//@   props C10
+//@   ensures [C10.new.isolated] result != nil && fresh(result) && len(result.events) == 0 && result.nextOffset == 0
+//@        && result.subscriptions != nil && fresh(result.subscriptions) && (forall id string :: !in(id, result.subscriptions))
+
+//@ func (*MemoryStore).Append
+//@   props C10 C09
+//@   requires m != nil && event != nil
+//@   ensures [C10.append.result] err == nil && result0 == pad20(len(acq(m.events)) + 1)
+//@   ensures [C10.append.increasing] forall i int :: {acq(m.events[i])} 0 <= i && i < len(acq(m.events)) ==> acq(m.events[i]).Offset < result0
+//@   ensures [cs.single] cnt(lockMem) == 1 && cnt(unlockMem) == 1
+//@   at unlock:MemoryStore.mu assert [C10.append.log] len(m.events) == len(acq(m.events)) + 1 &&
+//@        (forall i int :: {m.events[i]} 0 <= i && i < len(acq(m.events)) ==> m.events[i] == acq(m.events[i])) &&
+//@        m.events[len(m.events)-1].Type == event.Type && m.events[len(m.events)-1].Data == event.Data &&
+//@        m.events[len(m.events)-1].Timestamp == event.Timestamp && m.events[len(m.events)-1].Offset == pad20(len(m.events)) &&
+//@        fresh(m.events[len(m.events)-1])
+//@   at unlock:MemoryStore.mu assert [C10.append.frame] forall id string :: in(id, m.subscriptions) == acq(in(id, m.subscriptions)) && m.subscriptions[id] == acq(m.subscriptions[id])
+
+//@ def after(from, e) from == "" || from < e.Offset
+//@ func (*MemoryStore).Read
+//@   props C10 C11
+//@   requires m != nil
+//@   loop 1 invariant [idx] -1 <= rangeindex && rangeindex < len(m.events)
+//@   loop 1 invariant [ev.stable] m.events == loopentry(m.events) && seqeq(m.events, loopentry(m.events))
+//@        && (sarr(result) != sarr(m.events) || sarr(result) == 0) && (allocated(sarr(m.events)) || sarr(m.events) == 0)
+//@   loop 1 invariant [len] 0 <= len(result) && len(result) <= rangeindex + 1 && (limit > 0 ==> len(result) < limit || len(result) == 0)
+//@   loop 1 invariant [block] (forall j int :: {m.events[j]} 0 <= j && j < rangeindex + 1 - len(result) ==> !after(from, m.events[j])) &&
+//@        (forall k int :: {result[k]} 0 <= k && k < len(result) ==> result[k] == m.events[rangeindex + 1 - len(result) + k] && after(from, result[k]))
+//@   loop 1 invariant [last] lastOffset == ite(len(result) > 0, result[len(result)-1].Offset, from)
+//@   loop 1 invariant [first] len(result) > 0 ==> unpad20(result[0].Offset) - 1 == rangeindex + 1 - len(result)
+//@   ensures [C10.read.err] err == nil
+//@   ensures [C10.read.next] result1 == ite(len(result0) > 0, result0[len(result0)-1].Offset, from)
+//@   ensures [C10.read.limit] limit > 0 ==> len(result0) <= limit
+//@   ensures [C10.read.block] len(result0) > 0 ==> 0 <= unpad20(result0[0].Offset) - 1 && unpad20(result0[0].Offset) - 1 + len(result0) <= len(acq(m.events)) &&
+//@        (forall k int :: {result0[k]} 0 <= k && k < len(result0) ==> result0[k] == acqat(m.events, unpad20(result0[0].Offset) - 1 + k)) &&
+//@        (forall j int :: {acqat(m.events, j)} 0 <= j && j < unpad20(result0[0].Offset) - 1 ==> !after(from, acqat(m.events, j))) &&
+//@        after(from, result0[0])
+//@   ensures [C10.read.complete] (limit <= 0 || len(result0) < limit) ==> (len(result0) > 0 ==> unpad20(result0[0].Offset) - 1 + len(result0) == len(acq(m.events)))
+//@        && (len(result0) == 0 ==> (forall j int :: {acq(m.events[j])} 0 <= j && j < len(acq(m.events)) ==> !after(from, acq(m.events[j]))))
+//@   ensures [C10.read.nonempty] len(result0) == 0 ==> (forall j int :: {acq(m.events[j])} 0 <= j && j < len(acq(m.events)) ==> !after(from, acq(m.events[j])))
+
+//@ func (*MemoryStore).SaveOffset
+//@   props C10 C12
+//@   requires m != nil
+//@   ensures [C10.save.err] err == nil
+//@   at unlock:MemoryStore.mu assert [C10.save.law] in(subscriptionID, m.subscriptions) && m.subscriptions[subscriptionID] == offset &&
+//@        (forall id string :: id != subscriptionID ==> in(id, m.subscriptions) == acq(in(id, m.subscriptions)) && m.subscriptions[id] == acq(m.subscriptions[id]))
+//@        && m.events == acq(m.events)
+
+//@ func (*MemoryStore).LoadOffset
+//@   props C10 C12
+//@   requires m != nil
+//@   ensures [C10.load.law] err == nil && result0 == ite(acq(in(subscriptionID, m.subscriptions)), acq(m.subscriptions[subscriptionID]), "")
